@@ -120,7 +120,10 @@ fn scenario(cfg: &Cfg, track: bool) -> Out {
     let mut boots: Vec<SocketAddrV4> = vec![];
     let n_peers = 4;
     let obs_cfg = NodeCfg::new(if cfg.public { [50, 40, 50, 60] } else { [10, 1, 0, 100] }, 6881).bootstrap(&[SocketAddrV4::new(peer_ip(0, cfg.public).into(), 6881)]).id([0x0B; 20]);
-    let obs_cfg = if cfg.adaptive { obs_cfg } else { obs_cfg.server() };
+    let mut obs_cfg = if cfg.adaptive { obs_cfg } else { obs_cfg.server() };
+    // the observer's bootstrap list starts with two entries that are not addresses (a port out of
+    // range, no port): the reachable server listed after them is what counts
+    obs_cfg.bootstrap_junk = vec!["66.66.66.66:99999".to_string(), "66.66.66.66".to_string()];
     let mut early_obs: Option<usize> = None;
     if cfg.observer_first {
         early_obs = Some(w.add_node(obs_cfg.clone()));
